@@ -16,6 +16,7 @@ Suites
 """
 import atexit as real_atexit
 import builtins
+import gc
 import datetime as dt
 import hashlib
 import json
@@ -57,7 +58,13 @@ RULE = (
 )
 ASSUMPTIONS = [
     "cache entries are FileInfo objects as get_info produces them: str path, "
-    "two naive datetimes, attr dict with str keys and str values",
+    "two naive datetimes, attr dict with str keys whose values are what JSON "
+    "can hold (str, int, finite float, bool, None, lists and str-keyed dicts "
+    "of these); a tuple a handler supplies may come back as a list",
+    "a FileSet constructed with info_cache= is saved when the interpreter "
+    "exits also if the program dropped its last reference before (documented: "
+    "'Specify a name to a file here ... When restarting your script, this "
+    "cache is used'; nothing asks the user to keep the object alive)",
     "the on-disk time format of existing cache files is "
     "'%Y-%m-%dT%H:%M:%S.%f' (harness-written documents use it)",
     "a missing cache file is allowed and silent (documented: 'which need not "
@@ -151,19 +158,41 @@ def classify(raw):
     return "strict", model
 
 
+def jsonish(value):
+    """attribute values are compared modulo what JSON does to them: a tuple
+    is a list afterwards"""
+    if isinstance(value, (list, tuple)):
+        return [jsonish(v) for v in value]
+    if isinstance(value, dict):
+        return {k: jsonish(v) for k, v in value.items()}
+    return value
+
+
+def same_value(a, b):
+    """== that keeps True / 1 / 1.0 apart"""
+    if type(a) is not type(b):
+        return False
+    if isinstance(a, list):
+        return len(a) == len(b) and all(same_value(x, y) for x, y in zip(a, b))
+    if isinstance(a, dict):
+        return set(a) == set(b) and all(same_value(a[k], b[k]) for k in a)
+    return a == b
+
+
 def snapshot(fs):
     """plain copy of fs.info_cache: {key: (path, times, attr)}"""
     out = {}
     for key, info in fs.info_cache.items():
         times = info.times
         out[key] = (info.path, list(times) if isinstance(times, (list, tuple))
-                    else times, dict(info.attr)
+                    else times, jsonish(info.attr)
                     if isinstance(info.attr, dict) else info.attr)
     return out
 
 
 def model_snapshot(model):
-    return {p: (p, [t0, t1], dict(attr)) for p, (t0, t1, attr) in model.items()}
+    return {p: (p, [t0, t1], jsonish(attr))
+            for p, (t0, t1, attr) in model.items()}
 
 
 def same_state(snap, expected):
@@ -172,7 +201,8 @@ def same_state(snap, expected):
         return False
     for key, (path, times, attr) in expected.items():
         gpath, gtimes, gattr = snap[key]
-        if gpath != path or gattr != attr or not isinstance(gtimes, list) \
+        if gpath != path or not same_value(gattr, attr) \
+                or not isinstance(gtimes, list) \
                 or len(gtimes) != len(times):
             return False
         for g, t in zip(gtimes, times):
@@ -582,6 +612,12 @@ def label_content(ctx, entries):
         ctx.label("datetime-min-max")
     if any(e["attr"] for e in entries):
         ctx.label("attributes")
+    if any(isinstance(v, (list, dict)) for e in entries
+           for v in e["attr"].values()):
+        ctx.label("attr-containers")
+    if any(not isinstance(v, (str, list, dict)) for e in entries
+           for v in e["attr"].values()):
+        ctx.label("attr-numbers-bool-null")
     if any(ord(c) > 127 or ord(c) < 32 or c in '"\\'
            for e in entries for c in e["path"]):
         ctx.label("path-unicode-or-escapes")
@@ -1111,6 +1147,13 @@ def file_name(template, idx, f):
     return "%s_%d.dat" % (f["sat"], idx)
 
 
+def handler_attr(idx):
+    """what a file handler typically reports next to the times"""
+    return {"h": "h%d" % idx, "channels": [1, 2, idx], "orbit": 4000 + idx,
+            "quality": {"flag": idx % 2 == 0, "levels": [0.5, 2.25]},
+            "shape": (2, idx), "note": None}
+
+
 class World:
     def __init__(self, case, root, ctx):
         self.ctx = ctx
@@ -1156,7 +1199,7 @@ class World:
     # -- truth -------------------------------------------------------------
     def handler_info(self, f):
         t0 = f["t0"] + dt.timedelta(seconds=f["hshift"])
-        return t0, t0 + dt.timedelta(seconds=f["dur"]), {"h": "h%d" % f["idx"]}
+        return t0, t0 + dt.timedelta(seconds=f["dur"]), handler_attr(f["idx"])
 
     def fresh(self, f, sm):
         """what get_info must compute for an uncached file"""
@@ -1251,7 +1294,7 @@ class World:
                 sm["cache"][f["path"]] = self.fresh(f, sm)
             t0, t1, attr = sm["cache"][f["path"]]
             if t0 <= hi and t1 >= lo:
-                expected.append((t0, t1, f["path"], attr))
+                expected.append((t0, t1, f["path"], jsonish(attr)))
         expected.sort(key=lambda r: (r[0], r[1], r[2]))
         calls_before = dict(self.calls)
         try:
@@ -1268,7 +1311,8 @@ class World:
             ctx.check(not (op["no_files_error"] and not expected),
                       "history/find/no-NoFilesError",
                       "nothing to find but no NoFilesError")
-            rows = [(g.times[0], g.times[1], g.path, g.attr) for g in got]
+            rows = [(g.times[0], g.times[1], g.path, jsonish(g.attr))
+                    for g in got]
             ctx.check(sorted(rows, key=lambda r: (r[0], r[1], r[2])) == expected,
                       "history/find/wrong-answer", lambda: (
                           "find(%s, %s) via=%s coverage=%s with %d cached "
@@ -1421,6 +1465,13 @@ class World:
         for sm in self.alive:
             if sm["file"] is not None:
                 final.setdefault(sm["file"], sm)
+        if op.get("collect"):
+            # the program dropped its filesets before the interpreter exits
+            for sm in self.alive:
+                sm["fs"] = None
+            self.sets = []
+            gc.collect()
+            self.ctx.label("restart-after-collect")
         while atexit_proxy.registered:
             func, args, kwargs = atexit_proxy.registered.pop()
             func(*args, **kwargs)
@@ -1509,19 +1560,43 @@ def check_history(case, ctx):
 RESTART_SCRIPT = r"""
 import json, sys, warnings
 warnings.simplefilter("ignore")
+import gc
 from typhon.files import FileSet
-pattern, cache, phase = sys.argv[1:4]
-with warnings.catch_warnings(record=True) as caught:
-    warnings.simplefilter("always")
-    fs = FileSet(pattern, info_cache=cache)
-nwarn = len([w for w in caught if "cache" in str(w.message)])
-loaded = sorted(fs.info_cache)
-found = [[f.path, f.times[0].isoformat(), f.times[1].isoformat(), f.attr]
-         for f in fs.find(no_files_error=False)]
-cached = {p: [i.times[0].isoformat(), i.times[1].isoformat(), i.attr]
-          for p, i in fs.info_cache.items()}
-print("@@" + json.dumps({"loaded": loaded, "found": found, "cached": cached,
-                         "warnings": nwarn}))
+from typhon.files.handlers.common import FileHandler, FileInfo
+pattern, cache, phase, via, scope = sys.argv[1:6]
+kwargs = {}
+if via == "both":
+    def info(file_info):
+        return FileInfo(file_info.path, None, {
+            "channels": [1, 2, 3], "orbit": 4711,
+            "quality": {"flag": True, "levels": [0.5, 2.25]},
+            "shape": (2, 3), "note": None})
+    kwargs = dict(handler=FileHandler(info=info), info_via="both")
+
+
+def work():
+    with warnings.catch_warnings(record=True) as caught:
+        warnings.simplefilter("always")
+        fs = FileSet(pattern, info_cache=cache, **kwargs)
+    nwarn = len([w for w in caught if "cache" in str(w.message)])
+    loaded = sorted(fs.info_cache)
+    found = [[f.path, f.times[0].isoformat(), f.times[1].isoformat(), f.attr]
+             for f in fs.find(no_files_error=False)]
+    cached = {p: [i.times[0].isoformat(), i.times[1].isoformat(), i.attr]
+              for p, i in fs.info_cache.items()}
+    return fs, {"loaded": loaded, "found": found, "cached": cached,
+                "warnings": nwarn}
+
+
+if scope == "function":
+    out = work()[1]             # the fileset was local to the function
+elif scope == "deleted":
+    fs, out = work()
+    del fs
+else:
+    fs, out = work()            # module level: alive until exit
+gc.collect()
+print("@@" + json.dumps(out))
 if phase == "raise":
     raise RuntimeError("script dies after find")
 """
@@ -1540,23 +1615,33 @@ def restart_cases():
         "none": [{"t0": base, "dur": 0, "sat": s, "hshift": 0,
                   "present": True} for s in ["A", "B"]],
     }
-    yield {"template": "end", "files": pops["end"], "first_exit": "normal"}
-    yield {"template": "none", "files": pops["none"], "first_exit": "normal"}
-    yield {"template": "micro", "files": pops["micro"], "first_exit": "raise"}
-    yield {"template": "end", "files": pops["end"], "first_exit": "raise"}
+    yield {"template": "end", "files": pops["end"], "first_exit": "normal",
+           "via": "both", "scope": "function"}
+    yield {"template": "none", "files": pops["none"], "first_exit": "normal",
+           "via": "filename", "scope": "module"}
+    yield {"template": "micro", "files": pops["micro"], "first_exit": "raise",
+           "via": "filename", "scope": "deleted"}
+    yield {"template": "end", "files": pops["end"], "first_exit": "raise",
+           "via": "both", "scope": "module"}
 
 
 def check_restart(case, ctx):
     from vp import runner
+    via, scope = case.get("via", "filename"), case.get("scope", "module")
     ctx.label("restart", "template-" + case["template"],
-              "first-exit-" + case["first_exit"])
+              "first-exit-" + case["first_exit"], "restart-via-" + via,
+              "restart-scope-" + scope)
     root = tempfile.mkdtemp(prefix="vp-c15-")
     try:
         world_case = dict(case, decoys=1)
         world = World(world_case, root, ctx)
         sm = {"via": "filename", "coverage": None}
         truth = {f["path"]: world.fresh(f, sm) for f in world.files}
-        expect_cached = {p: [a.isoformat(), b.isoformat(), attr]
+        extra = {} if via == "filename" else {
+            "channels": [1, 2, 3], "orbit": 4711,
+            "quality": {"flag": True, "levels": [0.5, 2.25]},
+            "shape": [2, 3], "note": None}
+        expect_cached = {p: [a.isoformat(), b.isoformat(), dict(attr, **extra)]
                          for p, (a, b, attr) in truth.items()}
         cache = world.cache_paths[0]
         env = runner.child_env()
@@ -1564,7 +1649,7 @@ def check_restart(case, ctx):
         for phase in (case["first_exit"], "normal", "normal"):
             proc = subprocess.run(
                 [sys.executable, "-c", RESTART_SCRIPT, world.pattern, cache,
-                 phase], env=env, capture_output=True, text=True, timeout=600)
+                 phase, via, scope], env=env, capture_output=True, text=True, timeout=600)
             line = [ln for ln in proc.stdout.splitlines() if ln.startswith("@@")]
             if not line or (proc.returncode != 0) != (phase == "raise"):
                 raise RuntimeError("restart child failed (rc=%s): %s" % (
@@ -1633,12 +1718,24 @@ ATTR_KEY = ATTR_TEXT.filter(
     lambda k: not (k.startswith("__") and k.endswith("__")))
 
 
+ATTR_SCALAR = st.one_of(
+    ATTR_TEXT, st.integers(-2**40, 2**70), st.booleans(), st.none(),
+    st.floats(allow_nan=False, allow_infinity=False),
+    st.sampled_from([0, 1, -1, 0.5, 1e300, 5e-324, True, False]))
+# what a handler may report and JSON can hold: containers of scalars
+ATTR_VALUE = st.recursive(
+    ATTR_SCALAR, lambda ch: st.one_of(
+        st.lists(ch, max_size=3),
+        st.dictionaries(ATTR_KEY, ch, max_size=3)), max_leaves=5)
+
+
 def entry(i):
     return st.fixed_dictionaries({
         "path": PATH_TEXT.map(lambda s, i=i: "/d%d/%s" % (i, s)),
         "t": st.tuples(times(), times()),
         "attr": st.one_of(st.just({}), st.dictionaries(
-            ATTR_KEY, ATTR_TEXT, max_size=3)),
+            ATTR_KEY, ATTR_TEXT, max_size=3), st.dictionaries(
+            ATTR_KEY, ATTR_VALUE, max_size=3)),
     }).map(lambda d: {"path": d["path"], "t0": min(d["t"]), "t1": max(d["t"]),
                       "attr": d["attr"]})
 
@@ -1795,7 +1892,9 @@ def population_file(draw):
 
 
 def new_op(kind="new"):
+    extra = {"collect": st.booleans()} if kind == "restart" else {}
     return st.fixed_dictionaries({
+        **extra,
         "op": st.just(kind),
         "file": st.one_of(st.none(), st.integers(0, 1), st.integers(0, 1)),
         "coverage": st.sampled_from([None, None, 3600, 60, 86400]),
